@@ -417,7 +417,7 @@ func replayRules(c *Ctx, which string) {
 				if cl, ok := in.(*ssa.Call); ok && cl.Call.StaticCallee() == d.bit {
 					for _, cnd := range pf.conds {
 						cm, ok := normCmp(cnd.Cond, cnd.Val)
-						if ok && (cm.X == ssa.Value(cl) || cm.Y == ssa.Value(cl)) {
+						if ok && (sameOrigin(cm.X, ssa.Value(cl)) || sameOrigin(cm.Y, ssa.Value(cl))) {
 							bitTested = true
 							bitArg = pf.w.lin(cl.Call.Args[1])
 							k1, _ := constInt(cm.X)
@@ -762,7 +762,7 @@ func replayRules(c *Ctx, which string) {
 			i := f.Params[1]
 			if !hasFact(in, func(ft fact) bool {
 				cm, ok := normCmp(ft.Cond, ft.Val)
-				return ok && cm.Op == token.LSS && cm.X == ssa.Value(i) && isFieldLoad(cm.Y, "replaydetector.fixedBigInt", bigN)
+				return ok && cm.Op == token.LSS && sameOrigin(cm.X, ssa.Value(i)) && isFieldLoad(cm.Y, "replaydetector.fixedBigInt", bigN)
 			}) {
 				ob.Fail(in.Pos(), "%s accesses the word array without the guard i < n", fname(f))
 			}
@@ -813,7 +813,7 @@ func maskWidth(c *Ctx, newBig, lsh *ssa.Function, msb string) {
 	n := newBig.Params[0]
 	isR := func(v ssa.Value) bool { // n % 64
 		b, ok := v.(*ssa.BinOp)
-		if !ok || b.Op != token.REM || b.X != ssa.Value(n) {
+		if !ok || b.Op != token.REM || !sameOrigin(b.X, ssa.Value(n)) {
 			return false
 		}
 		k, ok := constInt(b.Y)
